@@ -439,7 +439,12 @@ func (viso *VirtualISO) makeDirEntries(item *dirItem, joliet bool) error {
 func (viso *VirtualISO) makePathTable(joliet bool) (pathTable, error) {
 	var ret pathTable
 
-	for i := 0; i < len(viso.rootDir) && i < pathTableItemsLimit; i++ {
+	// directory number (used as parent reference) is stored in 16 bits, table can't be cut silently: it must list all directories
+	if len(viso.rootDir) > math.MaxUint16 {
+		return nil, fmt.Errorf("too many directories (%d) for path table", len(viso.rootDir))
+	}
+
+	for i := 0; i < len(viso.rootDir); i++ {
 		pathTableEntry := pathTableEntry{
 			DirIdentifier: makeIdentifier(viso.rootDir[i].name, joliet),
 		}
